@@ -231,6 +231,99 @@ def endpoint(frames: int, K: int, path: str, bufsize: int = 16, via: str = "canc
     return scenario
 
 
+def aclient(frames: int, K: int, connect_delay: int = 1, prefix: list = (), exclude: list = ()):
+    """The real AsyncTCPNetworkClient (lazy connection on first use) over an in-memory transport: recv_packet() tasks are
+    cancelled at solver-chosen moments - including while the client is still connecting - while the peer's frames arrive in
+    solver-chosen pieces; later receives must deliver every frame, in order.
+    exclude=["connect_cancel"]: skip the schedules covered by the open known finding F-C10-connect (cancel during the connect)."""
+    from easynetwork.clients.async_tcp import AsyncTCPNetworkClient
+    from easynetwork.protocol import StreamProtocol
+
+    from . import streamlib as L
+    from .asyncenv import MemStreamTransport
+    from .c12 import MemBackend
+
+    def scenario(S):
+        stream = b""
+        expect = []
+        for i in range(frames):
+            stream += bytes([65 + i]) + b"\n"
+            expect.append(bytes([65 + i]))
+        with loop_context() as loop:
+            holder = {}
+
+            def factory():
+                holder["tr"] = MemStreamTransport(be, stream, available=holder.get("fed", 0), loop=loop)
+                return holder["tr"]
+
+            class SlowBackend(MemBackend):
+                async def create_tcp_connection(self, host, port, **kw):
+                    for _ in range(connect_delay):
+                        await self.coro_yield()
+                    return self._factory()
+
+            be = SlowBackend(factory)
+            client = AsyncTCPNetworkClient(("host", 1), StreamProtocol(L.RawSep(b"\n", limit=8)), be)
+            st = {"got": [], "task": None, "errors": [], "cancels": 0, "cancel_connecting": 0}
+
+            async def recv_once():
+                st["got"].append(await client.recv_packet())
+
+            def harvest():
+                t = st["task"]
+                if t is not None and t.done():
+                    st["task"] = None
+                    if not t.cancelled() and t.exception() is not None:
+                        st["errors"].append(repr(t.exception()))
+
+            def feed(k):
+                holder["fed"] = min(len(stream), holder.get("fed", 0) + k)
+                if "tr" in holder:
+                    holder["tr"].feed(k)
+
+            for i in range(K):
+                harvest()
+                if st["task"] is None and not st["errors"]:
+                    st["task"] = loop.create_task(recv_once())
+                c = prefix[i] if i < len(prefix) else S.choice(3, f"ev{i}")
+                if c == 0:
+                    loop.step()
+                elif c == 1:
+                    feed(S.pick([1, 2, 3], f"k{i}"))
+                else:
+                    if st["cancels"] < 2 and st["task"] is not None and not st["task"].done():
+                        if "tr" not in holder:
+                            if "connect_cancel" in exclude:
+                                S.assume(False)
+                            st["cancel_connecting"] += 1
+                        st["cancels"] += 1
+                        st["task"].cancel()
+                    else:
+                        loop.step()
+            feed(len(stream))
+            for _ in range(8 * frames + 30):
+                harvest()
+                if st["errors"]:
+                    break
+                if st["task"] is None:
+                    if len(st["got"]) >= frames:
+                        break
+                    st["task"] = loop.create_task(recv_once())
+                loop.step()
+            harvest()
+            ok = st["task"] is None and not st["errors"] and st["got"] == expect
+            tags = []
+            if st["cancels"]:
+                tags.append("cancel-on-pending-receive")
+            if st["cancel_connecting"]:
+                tags.append("cancel-while-connecting")
+            t3 = loop.create_task(client.aclose())
+            loop.run_until_idle(30)
+            return Outcome(ok=ok, skeleton=(len(st["got"]), len(st["errors"])), tags=tuple(tags), detail={"got": st["got"], "expected": expect, "errors": st["errors"], "cancelled_while_connecting": st["cancel_connecting"]})
+
+    return scenario
+
+
 def tls(K: int, kind: str = "recv", prefix: list = ()):
     """Two REAL AsyncTLSStreamTransport objects (real ssl.SSLObject / MemoryBIO, certificate from benchmark_server/servers/certs)
     wrapped around an in-memory duplex pipe.  The server writes a 6-byte stream in solver-chosen pieces while the client's pending
@@ -359,6 +452,9 @@ def shards(tier: str):
     for kind, via, maxsize in deep:
         for pre in itertools.product(range(3), repeat=2 if quick else 3):
             add(f"proto/{kind}/K{K}/{via}/m{maxsize}/pre{''.join(map(str, pre))}", dict(N=N, K=K, kind=kind, maxsize=maxsize, via=via, prefix=list(pre)), cost=9 ** (K - len(pre)) * 3)
+    # the real AsyncTCPNetworkClient: receives cancelled while connecting / while waiting for data
+    for pre in range(2):  # (a first event 'cancel' always lands during the connect: that is the open known finding F-C10-connect)
+        out.append({"name": f"aclient/K{4 if quick else 6}/pre{pre}", "scenario": "props.c10:aclient", "params": dict(frames=2, K=4 if quick else 6, prefix=[pre]), "budget": B, "cost": 300, "per_path_timeout": 30, "accepts_exclude": True})
     # the TLS transport's Python glue around a cancelled want-read, with real ssl objects on both sides of an in-memory pipe
     for kind in ("recv", "recv_into"):
         for pre in range(3):
